@@ -917,7 +917,11 @@ func genC41(t *rapid.T) rlCase {
 		} else {
 			h = pickHot()
 			op.Dir = h.chain // out of the limited chain ...
-			if rapid.IntRange(0, 3).Draw(t, "into") == 0 {
+			into := 1
+			if op.K == "fsend" {
+				into = 2 // a forward's asynchronous receive is the interesting side
+			}
+			if rapid.IntRange(0, 3).Draw(t, "into") < into {
 				op.Dir = 1 - h.chain // ... or into it
 			}
 		}
@@ -1008,7 +1012,10 @@ func genC41(t *rapid.T) rlCase {
 			// second transfer: a plain transfer into the limited chain on the same lane
 			t2 = transfer(&cl{1 - h.chain, h.lane}, -1, "", true)
 			t2[0].Dir = 1 - h.chain
-			seq := append([]rlOp{t1[0], t1[1]}, windowEnd(h)...) // send, recv (counted on h), window end
+			seq := []rlOp{t1[0], t1[1]} // send, recv (counted on h), then usually the window ends
+			if rapid.IntRange(0, 2).Draw(t, "mend") > 0 {
+				seq = append(seq, windowEnd(h)...)
+			}
 			seq = append(seq, t2[0])
 			if len(t2) > 1 {
 				seq = append(seq, t2[1]) // its receive is what the new window counts
